@@ -54,6 +54,10 @@ var identCatalogue = []identMutation{
 	{Name: "ident-times-dropped-clock", Verdict: "reject", Applies: laterV, Apply: func(chain []*identVersion, v int, st *identState) {
 		chain[v].Fields["times"] = map[string]uint64{"bugs-edit": 90}
 	}},
+	{Name: "ident-times-clock-swapped", Verdict: "reject", Applies: laterV, Apply: func(chain []*identVersion, v int, st *identState) {
+		// one clock disappears, another appears: as many clocks as before, still a dropped clock
+		chain[v].Fields["times"] = swapClock(chain[v-1].Fields["times"])
+	}},
 	{Name: "ident-no-name-no-login", Verdict: "reject", Applies: anyV, Apply: func(chain []*identVersion, v int, st *identState) {
 		delete(chain[v].Fields, "name")
 		delete(chain[v].Fields, "login")
@@ -349,4 +353,24 @@ func (e *Engine) identCase(p *sim.Plan, st *sim.Step, res *sim.RunResult, keep b
 		}
 	}
 	return vs, m.Verdict + "/" + status
+}
+
+// swapClock copies a version's clock map, takes "bugs-edit" out and puts an unrelated clock in.
+func swapClock(prev interface{}) map[string]uint64 {
+	out := map[string]uint64{}
+	switch m := prev.(type) {
+	case map[string]uint64:
+		for k, v := range m {
+			out[k] = v
+		}
+	case map[string]interface{}:
+		for k, v := range m {
+			if f, ok := v.(float64); ok {
+				out[k] = uint64(f)
+			}
+		}
+	}
+	delete(out, "bugs-edit")
+	out["other-edit"] = 1
+	return out
 }
